@@ -44,3 +44,53 @@ Print Assumptions C08_matrix.
 Print Assumptions C08_matrix_entry.
 Print Assumptions C08_formats_exclude_length_and_regex.
 Print Assumptions C08_rule_names.
+
+
+(* ------------------------------------------------------------------------------------------------
+   Property C08, pipeline part — what Check does with the RULES of one annotated node
+   (model Schema/RulePipeline.v, validated against the library by difftest; proofs Schema/RulePipelineProofs.v). *)
+From Coq Require Import Permutation ZArith.
+From JS Require Import Schema.RulePipeline Schema.RulePipelineProofs.
+
+(* the verdict is the same for every order in which the rules are written *)
+Theorem C08_verdict_order_independent : forall n rules rules',
+  Permutation rules rules' -> is_ok (check_node n rules) = is_ok (check_node n rules').
+Proof. exact verdict_permutation. Qed.
+
+(* Check succeeds iff the statement holds — for rule values of the right JSON kind, outside the three classes
+   on which the library departs from the statement (in_scope) *)
+Theorem C08_check_iff_statement : forall n rules,
+  well_formed_values rules = true -> in_scope n rules = true ->
+  (is_ok (check_node n rules) = true <-> spec_ok n rules = true).
+Proof. exact check_iff_spec. Qed.
+
+(* the three excluded classes are real: on each, Check and the statement disagree *)
+Theorem C08_statement_refuted_false_const :
+  well_formed_values [("const", VBool false)] = true /\
+  is_ok (check_node ex_empty_object [("const", VBool false)]) = true /\
+  spec_ok ex_empty_object [("const", VBool false)] = false /\
+  is_ok (check_node ex_integer [("type", VStr "any"); ("const", VBool false)]) = true /\
+  spec_ok ex_integer [("type", VStr "any"); ("const", VBool false)] = false /\
+  check_node ex_integer [("type", VStr "any"); ("const", VBool true)] = Err ErrUnexpectedConstraint.
+Proof. exact check_iff_spec_refuted_false_const. Qed.
+
+Theorem C08_statement_refuted_empty_array :
+  well_formed_values [("maxItems", VNum (1%Z, 0))] = true /\
+  check_node ex_empty_array [("maxItems", VNum (1%Z, 0))] = Err ErrIncorrectConstraintValueForEmptyArray /\
+  spec_ok ex_empty_array [("maxItems", VNum (1%Z, 0))] = true.
+Proof. exact check_iff_spec_refuted_empty_array. Qed.
+
+Theorem C08_statement_refuted_container :
+  check_node ex_object [("type", VStr "any")] = Err ErrInvalidNestedElementsFoundForTypeAny /\
+  spec_ok ex_object [("type", VStr "any")] = true /\
+  check_node ex_empty_object [("type", VStr "@o")] = Err ErrInvalidChildNodeTogetherWithTypeReference /\
+  spec_ok ex_empty_object [("type", VStr "@o")] = true /\
+  check_node ex_empty_object [("or", VOrList true 2 true)] = Err ErrInvalidChildNodeTogetherWithOrRule /\
+  spec_ok ex_empty_object [("or", VOrList true 2 true)] = true.
+Proof. exact check_iff_spec_refuted_container. Qed.
+
+Print Assumptions C08_verdict_order_independent.
+Print Assumptions C08_check_iff_statement.
+Print Assumptions C08_statement_refuted_false_const.
+Print Assumptions C08_statement_refuted_empty_array.
+Print Assumptions C08_statement_refuted_container.
